@@ -56,7 +56,7 @@ class Multitask:
         if len(values) == 1:
             return [[deepcopy(values[0]) for _ in range(0, self._m_tasks)] for _ in range(0, self._n_algorithms)]
         if len(values) == self._n_algorithms:
-            return [deepcopy(values[idx] for _ in range(0, self._m_tasks)) for idx in range(0, self._n_algorithms)]
+            return [deepcopy([values[idx] for _ in range(0, self._m_tasks)]) for idx in range(0, self._n_algorithms)]
         if len(values) == self._m_tasks:
             return [deepcopy(values) for _ in range(0, self._n_algorithms)]
         if len(values) == (self._n_algorithms * self._m_tasks):
